@@ -31,7 +31,7 @@ static int do_event(fstate *S, int ev, int judge, vres *r)
 {
     const vf_type *T = S->T; int iopt, nrhs = 1, ldb, n; int_t info = -99;
     if (ev < 4) {
-        int h = ev / 2, m = ev % 2; fmat *F = &S->M[m]; n = F->n; iopt = 1; ldb = n; S->handle[h] = 0;
+        int h = ev / 2, m = ev % 2; fmat *F = &S->M[m]; n = F->n; iopt = 1; ldb = n;      /* the handle is an output of a factor request: whatever the variable held before (garbage, a freed handle) must not matter */
         T->fortran_gssv(&iopt, &n, &F->nnz, &nrhs, F->val, F->ri, F->cp, NULL, &ldb, &S->handle[h], &info);
         WK_COUNT(K_FAC); WK_COUNT(K_TRANS);
         if (info != 0) return wk_fail(r, "factor-info", "factor request returned info=%ld for a nonsingular matrix", (long)info);
@@ -131,7 +131,7 @@ static int dfs(const vcase *c, fstate *S, unsigned char *w, int len, int l0, int
 
 static void run_C20(const vcase *c, vres *r)
 {
-    const vf_type *T = vf_T(c->type); fstate S; memset(&S, 0, sizeof S); S.T = T;
+    const vf_type *T = vf_T(c->type); fstate S; memset(&S, 0, sizeof S); S.T = T; S.handle[0] = 0x1111111111111111LL; S.handle[1] = 0x7fff5555aaaa0008LL;
     uint64_t p0 = c->pat, p1 = base_pattern(c->n, (c->aux + 3) % 9);
     if (pat_struct_rank(c->n, c->n, p0) < c->n || pat_struct_rank(c->n, c->n, p1) < c->n) { r->status = 2; return; }
     fmat_make(&S.M[0], T, c->n, p0, c->vals); fmat_make(&S.M[1], T, c->n, p1, c->vals == 2 ? 7 : 2);
